@@ -277,7 +277,11 @@ func checkServerFields(c *Check) {
 			// modular graph (short terms)
 			sites := c.P.callSites(func(n string) bool { return n == "golang.org/x/crypto/ocsp.ParseResponseForCert" })
 			if len(sites) == 1 {
-				pg = c.pgOfNI(ocspRoot, c.P.abbrev(sites[0].Fn.Obj.FullName()))
+				h := sites[0].Fn
+				if h2 := ocspExchangeHelper(c); h2 != nil {
+					h = h2
+				}
+				pg = c.pgOfNI(ocspRoot, c.P.abbrev(h.Obj.FullName()))
 			}
 		}
 		if pg == nil {
@@ -325,7 +329,11 @@ func checkOCSPAggregate(c *Check) {
 		c.undecided("O-C12.4", "OCSP aggregate", "request helper not found", "")
 		return
 	}
-	pg := c.pgOfNI(ocspRoot, c.P.abbrev(sites[0].Fn.Obj.FullName()))
+	h := sites[0].Fn
+	if h2 := ocspExchangeHelper(c); h2 != nil {
+		h = h2
+	}
+	pg := c.pgOfNI(ocspRoot, c.P.abbrev(h.Obj.FullName()))
 	if pg == nil {
 		return
 	}
